@@ -180,7 +180,8 @@ def build_model(names=None):
 
 
 MODEL_VOS = ["theories/Interp/Run.vo", "theories/Spec/Wire.vo", "theories/Spec/PcapRead.vo", "theories/Spec/Reasm4.vo", "theories/Spec/Tunnel.vo",
-             "theories/Spec/Timeline.vo", "theories/Spec/TcpAccount.vo", "theories/Lex/Scanner.vo", "theories/Lex/LexSpec.vo"]
+             "theories/Spec/Timeline.vo", "theories/Spec/TcpAccount.vo", "theories/Lex/Scanner.vo", "theories/Lex/LexSpec.vo",
+             "theories/Lib/DocsStd.vo", "theories/Spec/Registry.vo", "theories/Spec/DocCall.vo", "theories/Bind/Binder.vo"]
 
 
 def build_everything(extra_vo=(), models=("run",)):
@@ -296,6 +297,8 @@ def run_programs(tag, programs, files=None, keep=False, batch=40, timeout=120):
     into the work directory (programs refer to them by absolute path).  Returns dict name -> ImplResult."""
     d = workdir(tag)
     for fn, content in (files or {}).items():
+        if fn.startswith("/dev/"):
+            continue
         with open(os.path.join(d, fn), "wb") as f:
             f.write(content)
     names = list(programs)
